@@ -99,26 +99,79 @@ def inline_formats(modname, qualname):
             raise LookupError("%s: no %s" % (modname, qualname))
         body = node.body
     out = []
-    class V(ast.NodeVisitor):
-        def visit_Call(self, c):
-            f = c.func
-            if isinstance(f, ast.Attribute) and isinstance(f.value, ast.Name) and f.value.id == "struct" \
-               and f.attr in ("pack", "unpack", "unpack_from", "calcsize", "Struct", "pack_into") and c.args:
-                a = c.args[0]
-                lit = None
-                if isinstance(a, ast.Constant) and isinstance(a.value, str):
-                    lit = a.value
-                elif isinstance(a, ast.Call) and isinstance(a.func, ast.Attribute) and a.func.attr == "format" \
-                        and isinstance(a.func.value, ast.Constant):
-                    lit = a.func.value.value
-                elif isinstance(a, ast.JoinedStr):
-                    lit = "".join(v.value if isinstance(v, ast.Constant) else "{}" for v in a.values)
-                if lit is not None:
-                    out.append((c.lineno, c.col_offset, lit))
-            self.generic_visit(c)
-    V().visit(node)
-    out.sort()
-    return [l for _, _, l in out]
+    cls_node = None
+    if len(parts) == 2:
+        cls_node = next((n for n in tree.body if isinstance(n, ast.ClassDef) and n.name == parts[0]), None)
+    import struct as _struct
+    def resolve_struct(expr):
+        """format of a precompiled `struct.Struct` that `expr` names statically: a module-level constant, or a class
+        attribute reached as self.X / cls.X / ClassName.X (a maintainer's "hoist the format into a Struct constant" keeps
+        the regenerated model constant the same).  Instance attributes set in __init__ are not resolved."""
+        try:
+            if isinstance(expr, ast.Name):
+                v = getattr(mod, expr.id, None)
+            elif isinstance(expr, ast.Attribute) and isinstance(expr.value, ast.Name):
+                base = expr.value.id
+                owner = getattr(mod, parts[0], None) if base in ("self", "cls") and len(parts) == 2 else getattr(mod, base, None)
+                v = owner.__dict__.get(expr.attr) if isinstance(owner, type) else getattr(owner, expr.attr, None) if owner is not None and not isinstance(owner, type) else None
+                if isinstance(owner, type) and v is None:
+                    v = next((k.__dict__[expr.attr] for k in owner.__mro__ if expr.attr in k.__dict__), None)
+            else:
+                return None
+            return v.format if isinstance(v, _struct.Struct) else None
+        except Exception:
+            return None
+    def helper_node(f):
+        """a PRIVATE helper (name starts with '_', not a dunder) of the same module / class called as _h(...), self._h(...),
+        cls._h(...) or ClassName._h(...): its formats count as written at the call site ("extract a helper function")"""
+        name, scope = None, None
+        if isinstance(f, ast.Name):
+            name, scope = f.id, tree.body
+        elif isinstance(f, ast.Attribute) and isinstance(f.value, ast.Name):
+            name = f.attr
+            if f.value.id in ("self", "cls") and cls_node is not None:
+                scope = cls_node.body
+            else:
+                k = next((n for n in tree.body if isinstance(n, ast.ClassDef) and n.name == f.value.id), None)
+                scope = k.body if k is not None else None
+        if not name or scope is None or not name.startswith("_") or name.startswith("__"):
+            return None
+        return next((n for n in scope if isinstance(n, ast.FunctionDef) and n.name == name), None)
+    def collect(fn_node, depth, key):
+        class V(ast.NodeVisitor):
+            def visit_Call(self, c):
+                f = c.func
+                pos = key + (c.lineno, c.col_offset)
+                if isinstance(f, ast.Attribute) and isinstance(f.value, ast.Name) and f.value.id == "struct" \
+                   and f.attr in ("pack", "unpack", "unpack_from", "calcsize", "Struct", "pack_into") and c.args:
+                    a = c.args[0]
+                    lit = None
+                    if isinstance(a, ast.Constant) and isinstance(a.value, str):
+                        lit = a.value
+                    elif isinstance(a, ast.Call) and isinstance(a.func, ast.Attribute) and a.func.attr == "format" \
+                            and isinstance(a.func.value, ast.Constant):
+                        lit = a.func.value.value
+                    elif isinstance(a, ast.JoinedStr):
+                        lit = "".join(v.value if isinstance(v, ast.Constant) else "{}" for v in a.values)
+                    if lit is not None:
+                        out.append((pos, lit))
+                elif isinstance(f, ast.Attribute) and f.attr in ("pack", "unpack", "unpack_from", "pack_into", "iter_unpack"):
+                    fmt = resolve_struct(f.value)
+                    if fmt is not None:
+                        out.append((pos, fmt))
+                    elif depth < 2:
+                        h = helper_node(f)
+                        if h is not None and h is not fn_node:
+                            collect(h, depth + 1, pos)
+                elif depth < 2:
+                    h = helper_node(f)
+                    if h is not None and h is not fn_node:
+                        collect(h, depth + 1, pos)
+                self.generic_visit(c)
+        V().visit(fn_node)
+    collect(node, 0, ())
+    out.sort(key=lambda t: t[0])
+    return [l for _, l in out]
 
 # ---------------------------------------------------------------------------------------------
 # TABLE: lean module name -> (python module, [ (lean name, kind, python expression) ])
